@@ -79,7 +79,12 @@ def cost(tier, seed, info):
         out['summary']['time'][f] = [(l, round(t, 4)) for _, l, t in res]
         txt, pr = judge_times(f, res)
         if txt:
-            out['failures'].append(Failure(dict(pr, mode='time'), 'superlinear-time', txt))
+            # confirm before reporting: measure the two sizes again (more repetitions); noise does not repeat
+            res2, _ = timed(f, (pr['n0'], pr['n']), reps=4)
+            txt2, pr2 = (None, None) if res2 is None else judge_times(f, res2)
+            out['summary'].setdefault('confirmations', []).append({'family': f, 'first': txt, 'confirmed': bool(txt2)})
+            if txt2:
+                out['failures'].append(Failure(dict(pr2, mode='time'), 'superlinear-time', txt2))
     # (3) suspects from the work model: search at large sizes (this only runs when the tie is broken)
     flagged = {f.index.get('family') for f in out['failures'] if isinstance(f.index, dict)}
     for f, why in suspects:
